@@ -41,7 +41,7 @@ func genRenderLeaf(r *rand.Rand) V {
 	}
 }
 
-var symbols = []string{"&", "&&", "|", "∧", "!"}
+var symbols = []string{"&", "&&", "|", "∧", "!", "and_also", "Plus"}
 var delims = []string{",", " ", ";", "·", ", "}
 var encs = [][]string{{"\""}, {"'"}, {"<", ">"}, {"[", "]"}, {"«", "»"}, {"{{", "}}"}}
 
